@@ -59,7 +59,7 @@ func (c *Config) has(f string) bool {
 
 var allFeatures = []string{
 	"exits", "proposer_slashings", "attester_slashings", "deposits", "bls_changes", "sync_partial",
-	"forks", "late_atts", "low_balances", "blobs",
+	"forks", "late_atts", "low_balances", "blobs", "epoch_gap",
 	// faults
 	"crash_restart", "multi_slot_jumps", "partition",
 }
